@@ -1,4 +1,4 @@
-import VelaVerif.Lemmas.SrcNumericUtil
+import VelaVerif.Lemmas.PyRt
 import VelaVerif.Model.Blockdep
 import VelaVerif.Gen.SrcRegisterCommandStreamUtil
 /-!
